@@ -48,7 +48,8 @@ CHECKS['C04'] = dict(
 CHECKS['C05'] = dict(
     technique='runtime monitors: loss-budget checker over recorded fibre crossings; compositional accumulation '
               'oracle (isolated contributions, sum / root-sum-square, span-order permutations); Raman solver '
-              'limit/convergence/lumped-once/pump-monotonicity checks on the real solver',
+              'limit/convergence/lumped-once/pump-monotonicity/input-attenuation checks on the real solver; element-level '
+              'values of the topology document compared with the fibres of the built network',
     text='Every fibre, ROADM and amplifier crossing of generated paths and hand-built heterogeneous lines is judged '
          'against an independent loss budget and the accumulation rule; the Raman solver is driven through its '
          'settings and compared with its low-power limit and across methods. Exploration.',
@@ -109,8 +110,8 @@ CHECKS['C11'] = dict(
               'routes of requests inside synchronisation groups judged for the route clauses (real, loop-free, STRICT)',
     text='Each request of generated batches on generated meshes is compared with the optimum over all simple '
          'constraint-satisfying routes enumerated independently. Exploration.',
-    note='Whole-kilometre fibre lengths (exact ties); undefined LOOSE/STRICT mixes not judged; one listed known '
-         'finding (explicit route ignores order inside an OMS).', ref='3/C11')
+    note='Whole-kilometre fibre lengths (exact ties); undefined LOOSE/STRICT mixes not judged; Raman-amplified spans in a '
+         'share of the meshes.', ref='3/C11')
 
 CHECKS['C12'] = dict(
     technique='runtime monitor: returned routes per synchronisation group checked for shared unordered ROADM links; '
@@ -142,7 +143,8 @@ CHECKS['C14'] = dict(
 CHECKS['C15'] = dict(
     technique='runtime monitors: icontract class invariant on the real Bitmap; structural checker on build_oms_list '
               'output with an exact usable-band oracle (slot usable iff its central frequency lies in a common band; '
-              'on-grid and off-grid band edges); alignment checker on random / equal-width / nested map sets + the repository own test suite run as one more workload with the input-independent monitors on (pytest plugin)',
+              'on-grid and off-grid band edges, two band plans on one OMS, one-directional lines); history: second build after '
+              'the designed object was extended; alignment checker on random / equal-width / nested map sets + the repository own test suite run as one more workload with the input-independent monitors on (pytest plugin)',
     text='OMS partition, end points, reverse pairing, common slot range and usable-band marking are checked on '
          'networks whose OMS differ in bands; grid alignment on maps of different extents. Exploration.',
     note='Amplifier bands from the loaded library; amplifiers of one line share some band; 1 kHz float slack on band edges.', ref='3/C15')
@@ -165,7 +167,8 @@ CHECKS['C17'] = dict(
     note='Numbers to the export rounding, structure exact, dB figures 1e-4 dB, CD/PMD/PDL/latency 1e-6 relative.', ref='3/C17')
 CHECKS['C18'] = dict(
     technique='runtime monitors: idempotence checker over recorded conversions, leaf-by-leaf comparison against the '
-              'declared fraction digits, loader-equivalence differential, alias checker; libyang validation as gate',
+              'declared fraction digits, loader-equivalence differential, qualified-identity differential, alias checker; '
+              'libyang validation as gate',
     text='Generated documents of the five kinds are converted back and forth and loaded from either form. Exploration.',
     note='Valid document = passes libyang validation; loader objects compared with 1e-5 relative slack.', ref='3/C18')
 
